@@ -183,7 +183,7 @@ class C03(Check):
             'included) x both chunk-size conventions. Sub-space "meta": all sequences of <=3 (quick) / <=4 (thorough) '
             'metadata/log blocks over 7 kinds (dyld modules, trace codes, processes, kexts, images, log events, unknown tag) '
             'with occurrence-numbered payloads, the string index placed at every position, x thread maps (4) x gap bytes after '
-            'MORE_EVENTS (4). Sub-space "blocks": every filler length 362..531, 3946..4115, 8042..8211 before the stackshot sentinel, before the thread-map tag and after MORE_EVENTS (a tag at / across every 512/4096/8192-byte block boundary). Sub-space "tagged": records whose first bytes are container tags / the v3 magic, in every position and chunking. Sub-space "order": records with equal and decreasing timestamps in every order and chunking stay in file order. Sub-space "cli": the processes / kexts / images commands print the sections as JSON. Sub-space "long": 2^k-1, 2^k, 2^k+1 records (k = 6..12) in 1..3 chunks. Sub-space "reuse": ONE parser object parses '
+            'MORE_EVENTS (4). Sub-space "blocks": every filler length 362..531, 3946..4115, 8042..8211 before the stackshot sentinel, before the thread-map tag and after MORE_EVENTS (a tag at / across every 512/4096/8192-byte block boundary). Sub-space "gapraw": the next events tag 0..80 bytes after a MORE_EVENTS tag, in every chunking of 3 records. Sub-space "tagged": records whose first bytes are container tags / the v3 magic, in every position and chunking. Sub-space "order": records with equal and decreasing timestamps in every order and chunking stay in file order. Sub-space "cli": the processes / kexts / images commands print the sections as JSON. Sub-space "long": 2^k-1, 2^k, 2^k+1 records (k = 6..12) in 1..3 chunks. Sub-space "reuse": ONE parser object parses '
             'two dumps in turn (6 x 6 block sequences x 3 map pairs); the second parse must leave the second dump\'s metadata only. Oracle: events all/in order/== independent decode/before any log; tables after the thread-map '
             'chunk and after logs; list-valued sections concatenated in file order; scalar sections equal one of their '
             'payloads; logs in order with strings resolved. non-trivial = >=2 chunks or >=2 blocks. states = distinct '
@@ -207,6 +207,7 @@ class C03(Check):
         out.append(('long',))
         out.append(('reuse',))
         out += [('blocks', which) for which in ('filler1', 'filler2', 'gap')]
+        out.append(('gapraw',))
         out.append(('tagged',))
         out.append(('cli',))
         out.append(('order',))
@@ -254,6 +255,21 @@ class C03(Check):
                     acc.case(nontrivial=True, transitions=4, state=h64(('blocks', which, L)), outcome=h64(('blocks', which)))
                     for sig, detail in bad:
                         acc.violation(sig + ':long-filler', {'kind': 'blocks', 'which': which, 'len': L}, detail)
+        elif desc[0] == 'gapraw':
+            # nothing is known about what follows a MORE_EVENTS tag except that the next events tag does: every distance 0..80
+            recs = RECS[:3]
+            for L in range(0, 81):
+                for comp in ((1, 2), (2, 1), (1, 1, 1)):
+                    chunks, i = [], 0
+                    for c in comp:
+                        chunks.append(recs[i:i + c])
+                        i += c
+                    fill = bytes((i * 7 + 1) % 251 + 1 for i in range(L))
+                    blob = B.v3(threads=THREADMAPS[0], chunks=chunks, blocks=[blk('codes', 0)], gap=fill, more_word=b'')
+                    bad = judge(blob, THREADMAPS[0], recs, ['codes'], None)
+                    acc.case(nontrivial=True, transitions=4, state=h64(('gapraw', L, comp)), outcome=h64(('gapraw', L % 8)))
+                    for sig, detail in bad:
+                        acc.violation(sig + ':events-tag-close-after-more-events', {'kind': 'gapraw', 'len': L, 'comp': list(comp)}, detail)
         elif desc[0] == 'tagged':
             for seq in itertools.product(range(len(TAGGED) + 1), repeat=3):
                 recs = [(TAGGED + [RECS[0]])[i] for i in seq]
@@ -341,7 +357,7 @@ class C03(Check):
             acc.sample({k: (list(v) if isinstance(v, tuple) else v) for k, v in params.items()})
 
     def replay(self, case):
-        if case.get('kind') in ('long', 'reuse', 'blocks', 'tagged', 'cli', 'order'):
+        if case.get('kind') in ('long', 'reuse', 'blocks', 'tagged', 'cli', 'order', 'gapraw'):
             from mc.run import Acc
             acc = Acc()
             self.run_shard((case['kind'], case.get('which')) if case['kind'] == 'blocks' else (case['kind'],), acc)
